@@ -12,7 +12,7 @@ def rebuild_for_replay(rec):
 
 def run(chk):
     exe = build()
-    r = chk.run('asan', exe, chk.pick(12000, 60000))
+    r = chk.run('asan', exe, chk.pick(12000, 800000))
     chk.rule = ('case index selects (class of 16: str ustr mbuff objpair tok url regexp and list/vector/map x array/linked/dlinked, scenario); '
                 'dup scenario: object from a random construction history -> dup -> class/type()/value/representation checks -> mutate copy, mutate '
                 'original, done/del one, mutate survivor, all against canonical renderings; comp scenario: 7 objects incl. NULL, duplicates of '
